@@ -977,6 +977,68 @@ def parseProgramFuel (fuel : Nat) (toks : List Token) : Option (Program Name) :=
 on printer output) -/
 def parseProgram (toks : List Token) : Option (Program Name) := parseProgramFuel (toks.length + 1) toks
 
+-- ------------------------------------------------------------------ printer with layout
+/-- which soft breaks (`line_()`) of the document are rendered as a line break: one decision per
+document node, addressed by its path from the root (innermost step first) -/
+abbrev Layout := List Nat → Bool
+
+/-- a soft break: white space if the document breaks here, nothing otherwise -/
+def soft (b : Bool) : List Token := if b then [.ws] else []
+
+/-- `Type::to_doc` under a layout (`"(list" line type line_ ")"`) -/
+def printTyL (w : Layout) : List Nat → Ty → List Token
+  | p, .list t => [.lpar, .word (chars tyListDisplay), .ws] ++ printTyL w (0 :: p) t ++ soft (w p) ++ [.rpar]
+  | p, .pair a b =>
+    [.lpar, .word (chars tyPairDisplay), .ws] ++ printTyL w (0 :: p) a ++ [.ws] ++ printTyL w (1 :: p) b ++ [.rpar]
+  | _, t => printTy t
+
+/-- `Constant::to_doc` under a layout (soft breaks only inside the types) -/
+def printConstL (w : Layout) (p : List Nat) : Const → List Token
+  | .list t xs =>
+    [.lpar, .word (kwCon .list), .ws] ++ printTyL w (0 :: p) t ++ [.rpar, .ws, .lbrack] ++ printElems xs ++ [.rbrack]
+  | .pair a b x y =>
+    [.lpar, .word (kwCon .pair), .ws] ++ printTyL w (0 :: p) a ++ [.ws] ++ printTyL w (1 :: p) b ++ [.rpar, .ws, .lpar]
+      ++ printElem x ++ sepTokens ++ printElem y ++ [.rpar]
+  | c => printConst c
+
+mutual
+  /-- `Term::to_doc` under a layout: a soft break before the closing parenthesis of
+  `lam` / `delay` / `force` / `con` / `builtin` / `constr` / `case` -/
+  def printTermL (w : Layout) : List Nat → Term Name → List Token
+    | _, .var n => [.word (BinderText.text n)]
+    | p, .lam n b =>
+      [.lpar, .word (kwTerm .lam), .ws, .word (BinderText.text n), .ws] ++ printTermL w (0 :: p) b ++ soft (w p) ++ [.rpar]
+    | p, .app f a => [.lbrack, .ws] ++ printTermL w (0 :: p) f ++ [.ws] ++ printTermL w (1 :: p) a ++ [.ws, .rbrack]
+    | p, .delay t => [.lpar, .word (kwTerm .delay), .ws] ++ printTermL w (0 :: p) t ++ soft (w p) ++ [.rpar]
+    | p, .force t => [.lpar, .word (kwTerm .force), .ws] ++ printTermL w (0 :: p) t ++ soft (w p) ++ [.rpar]
+    | _, .error => [.lpar, .word (kwTerm .error), .rpar]
+    | p, .builtin b => [.lpar, .word (kwTerm .builtin), .ws, .word (chars b.display)] ++ soft (w p) ++ [.rpar]
+    | p, .const c => [.lpar, .word (kwTerm .con), .ws] ++ printConstL w (0 :: p) c ++ soft (w p) ++ [.rpar]
+    | p, .constr tag fs =>
+      [.lpar, .word (kwTerm .constr), .ws, .word (natChars tag)] ++ printTermsL w p 0 fs ++ soft (w p) ++ [.rpar]
+    | p, .case s bs =>
+      [.lpar, .word (kwTerm .case), .ws] ++ printTermL w (0 :: p) s ++ printTermsL w p 1 bs ++ soft (w p) ++ [.rpar]
+  def printTermsL (w : Layout) : List Nat → Nat → List (Term Name) → List Token
+    | _, _, [] => []
+    | p, i, t :: ts => .ws :: (printTermL w (i :: p) t ++ printTermsL w p (i + 1) ts)
+end
+
+/-- `Program::to_doc` under a layout; `fun _ => false` is the flat rendering `printProgramTokens` -/
+def printProgramTokensL (w : Layout) (p : Program Name) : List Token :=
+  [.lpar, .word (chars programDisplay), .ws, .word (versionChars p.version), .ws] ++ printTermL w [0] p.term
+    ++ soft (w []) ++ [.rpar]
+
+/-- the token's text has no new-line (a `ws` token is layout, not text) -/
+def cleanWord (w : List Char) : Bool := !w.contains '\n'
+
+def tokOk : Token → Bool
+  | .word w => cleanWord w
+  | .hash h => cleanWord h
+  | .str raw => cleanWord raw
+  | _ => true
+
+def toksOk (l : List Token) : Bool := l.all tokOk
+
 -- ------------------------------------------------------------------ well-formedness (hypotheses of the round trip)
 mutual
   /-- constructor tags fit the parser's `u64` -/
